@@ -115,8 +115,13 @@ def build(spec):
             ti.variants.add(v)
         else:
             ti.variants.add(v, variant_id=vs["key"])
+    import os.path
     for path, typ, val in spec["checksums"]:
-        ti.checksums.checksums[path] = (typ, val)
+        if val and not path.startswith("/") and os.path.normpath(path) == path:
+            ti.checksums.add(path, typ, val)             # the public way for a path in normal form (stores it verbatim)
+        else:
+            ti.checksums.checksums[path] = (typ, val)    # the table is a public dict: keys that add() would rewrite
+
     for plat, imgs in spec["images"]:
         ti.images.images[plat] = dict((k, p) for k, p in imgs)
     ti.stage2.mainimage = spec["stage2"]["mainimage"]
@@ -325,6 +330,10 @@ KID_IDS = ["HA", "RS", "optional", "debug", "LB", "SAP", "K1", "NFV", "Rt"]
 PATH_VALUES = [".", "Packages", "a b/c", "UPPER/lower", "repo%20x", "x=y", "os/Packages", "Server/optional", "p:q", ""]
 IMAGE_NAMES = ["kernel", "Kernel", "initrd", "boot.iso", "UPGRADE", "a b", "kernel.img", "efiboot.img", "macboot.img"]
 CHECKSUM_PATHS = ["images/boot.iso", "repodata/repomd.xml", "UP/low", "images/pxeboot/vmlinuz", "Mixed/Case.img", "a b/c d"]
+# relative paths that are legal option names but NOT in os.path.normpath form (the table is a public dict, the writer emits keys
+# verbatim), including groups that normalise to the same string: every one must survive as a key of its own
+NONNORMAL_PATHS = ["./repodata/repomd.xml", "images//pxeboot/vmlinuz", "a/./b", "a/b", "a//b", "a/b/", "images/dir/", "a/../b", "b", "./b",
+                   "x/.", "x", "../up/file", "./", "c/d/../../e", "e"]
 # boundary values for every free-text field: all single-line without outer blanks, hence representable in the file syntax
 # (comment prefixes after a blank, delimiters, brackets, interpolation syntax, trailing backslash, inner tab / no-break space, long)
 BOUNDARY_VALUES = ["Fedora ;Server", "a #b", "a ; b", "a;b", "a ;", "; lead", "# lead", "x = y", "x: y", "[x]", "%(a)s", "%%", "100%",
@@ -413,7 +422,8 @@ def gen(rng, tier="quick", float_ts=False, dashed_by_id=0.0):
             images.append([p, [[k, bval(rng, "images/%s/%s" % (p, k))] for k in names]])
     rng.shuffle(images)
     checks = []
-    for p in rng.sample(uniq(CHECKSUM_PATHS + (BOUNDARY_NAMES if rng.random() < 0.3 else [])), rng.choice([0, 0, 1, 2, 3])):
+    for p in rng.sample(uniq(CHECKSUM_PATHS + (BOUNDARY_NAMES if rng.random() < 0.3 else []) + (NONNORMAL_PATHS if rng.random() < 0.35 else [])),
+                        rng.choice([0, 0, 1, 2, 3, 4])):
         checks.append([p, bval(rng, ["sha256", "md5", "sha1", "sha512", "SHA256"], rate=0.05, exclude=":"),
                        bval(rng, "%x" % rng.getrandbits(rng.choice([64, 128, 160, 256])), exclude=":")])
     stage2 = {"mainimage": bval(rng, "LiveOS/squashfs.img") if rng.random() < 0.5 else rng.choice([None, None, ""]),
